@@ -134,6 +134,26 @@ def cid_doc(r, variant):
     return write_pdf(objs, 1), ""
 
 
+def shared_descendant_doc(r, variant):
+    """two Type0 fonts sharing ONE descendant CIDFont object; only the first has a ToUnicode map (or its own Encoding)"""
+    tu = Stream({}, b"begincmap 1 beginbfrange <0001> <0009> <0041> endbfrange endcmap")
+    objs = {1: {"Type": Name("Catalog"), "Pages": Ref(2)}, 2: {"Type": Name("Pages"), "Kids": [Ref(3), Ref(5)], "Count": 2},
+            7: {"Type": Name("Font"), "Subtype": Name("Type0"), "BaseFont": Name("Foo"), "Encoding": Name("Identity-H"),
+                "DescendantFonts": [Ref(8)], "ToUnicode": Ref(9)},
+            10: {"Type": Name("Font"), "Subtype": Name("Type0"), "BaseFont": Name("Foo"),
+                 "Encoding": Name("Identity-H" if variant % 2 == 0 else "Identity-V"), "DescendantFonts": [Ref(8)]},
+            8: {"Type": Name("Font"), "Subtype": Name("CIDFontType2"), "BaseFont": Name("Foo"),
+                "CIDSystemInfo": {"Registry": b"Adobe", "Ordering": b"Identity", "Supplement": 0}, "DW": 1000,
+                "FontDescriptor": {"Type": Name("FontDescriptor"), "FontName": Name("Foo"), "Flags": 4, "FontBBox": [0, -200, 1000, 800],
+                                   "Ascent": 800, "Descent": -200}},
+            9: tu,
+            4: Stream({}, b"BT /F1 12 Tf 72 700 Td <00010002> Tj ET"), 6: Stream({}, b"BT /F2 12 Tf 72 700 Td <00020003> Tj ET")}
+    first, second = (7, 10) if variant < 2 else (10, 7)
+    objs[3] = {"Type": Name("Page"), "Parent": Ref(2), "MediaBox": [0, 0, 612, 792], "Contents": Ref(4), "Resources": {"Font": {"F1": Ref(first)}}}
+    objs[5] = {"Type": Name("Page"), "Parent": Ref(2), "MediaBox": [0, 0, 612, 792], "Contents": Ref(6), "Resources": {"Font": {"F2": Ref(second)}}}
+    return write_pdf(objs, 1), ""
+
+
 def make_pool(ctx, k):
     import c10
     import c11
@@ -142,6 +162,8 @@ def make_pool(ctx, k):
         pool.append(("font%d" % v,) + font_doc(ctx.sub("pool", k, "font", v), v))
     for v in range(4):
         pool.append(("cid%d" % v,) + cid_doc(ctx.sub("pool", k, "cid", v), v))
+    for v in range(4):
+        pool.append(("shared%d" % v,) + shared_descendant_doc(ctx.sub("pool", k, "shared", v), v))
     for v in range(3):
         pdf, _, _ = c11.gen_doc(ctx.sub("pool", k, "c11", v))
         pool.append(("mixed%d" % v, pdf, ""))
